@@ -64,8 +64,9 @@ def run_case(case, prop) -> Dict[str, Any]:
         v = sc["sims"][c["dst"]]["sid"]
         for pi, (ua, va) in enumerate(c["pairs"]):
             if pi in bad:
-                rejected.append({"ci": ci, "u": u, "ue": f"e{c.get('se', 0)}", "ua": ua,
-                                 "v": v, "ve": f"e{c.get('de', 0)}", "va": va, "why": bad[pi]})
+                rejected.append({"ci": ci, "u": u, "ue": f"e{c.get('se', 0)}" + ("c" if c.get("sc") else ""), "ua": ua,
+                                 "v": v, "ve": f"e{c.get('de', 0)}" + ("c" if c.get("dc") else ""), "va": va,
+                                 "why": bad[pi]})
     digs = []
     reported = set()
 
